@@ -243,7 +243,7 @@ func parsesAsRego(text string) error {
 
 func checkC07(c *Ctx) {
 	r, p := c.R, c.P
-	r.Explanation = "'Never fails because of names or code the translator invented' is a statement about the translator's finite set of templates and name generators, decided template by template. (H1) Identifier hygiene: the quantified-variable alphabet (the literal in the variable generator plus the X<n> fallback) is combined with every template position that forms an identifier from a variable name (prefix/suffix glued to a %s in code position); none of the produced names - nor the bare names - is a Rego keyword (of the linked OPA, plus the future keywords the preamble imports), a rule or function of the embedded preamble, an undotted built-in, or an identifier the templates themselves use as a fixed local name. (H2) Every rule head emitted outside the preamble is named by the fresh-name generator or by the lower-cased level. (H3) Bracket discipline of the functions that emit multi-line constructs: an abstract interpretation of each such function over the stack of open brackets (first-iteration idiom and loops unrolled 0..3 times, 0..4 in the thorough tier) requires every closing bracket to match the innermost open one, the stack to be empty at every return, and every call of a known built-in opened by a template to be closed with the built-in's declared number of arguments for any number of alternatives. (H4) Every self-contained template (balanced brackets) is instantiated - operator holes with every constant the operand can take, other holes with identifiers / literals according to their lexical context - and parsed with OPA's parser as a body, a rule or a module. (H5) Profile text other than the sources of C13 (path text) is neutralised for its context; the package name is reduced to identifier characters. (H6) The characters the path grammar admits in a compact IRI are all admitted by the IRI expander's compact-form check. Does not decide OPA's later compile stages (safety, types, recursion, type-check time) on the assembled module."
+	r.Explanation = "'Never fails because of names or code the translator invented' is a statement about the translator's finite set of templates and name generators, decided template by template. (H1) Identifier hygiene: the quantified-variable alphabet (the literal in the variable generator plus the X<n> fallback) is combined with every template position that forms an identifier from a variable name (prefix/suffix glued to a %s in code position); none of the produced names - nor the bare names - is a Rego keyword (of the linked OPA, plus the future keywords the preamble imports), a rule or function of the embedded preamble, an undotted built-in, or an identifier the templates themselves use as a fixed local name. (H2) Every rule head emitted outside the preamble is named by the fresh-name generator or by the lower-cased level. (H3) Bracket discipline of the functions that emit multi-line constructs: every text-returning function of the generator is evaluated symbolically; the lines, joined texts and text fields it returns form a tree of constant texts, holes, each(collection => ...) and when(condition => ...); when a constant text is unbalanced on its own the tree is interpreted over the stack of open brackets for every combination of 0..4 (thorough: 0..5) elements per collection, with the conditions on loop indices and on len() of the lists being built evaluated exactly; every closing bracket must match the innermost open one, nothing may stay open at the end, and every call of a built-in or of a preamble function opened by a template must be closed with its declared number of arguments. (H4) Every self-contained template (balanced brackets) is instantiated - operator holes with every constant the operand can take, other holes with identifiers / literals according to their lexical context - and parsed with OPA's parser as a body, a rule or a module. (H5) Profile text other than the sources of C13 (path text) is neutralised for its context; the package name is reduced to identifier characters. (H6) The characters the path grammar admits in a compact IRI are all admitted by the IRI expander's compact-form check. Does not decide OPA's later compile stages (safety, types, recursion, type-check time) on the assembled module."
 	r.Declines = []string{"OPA's safety, type and recursion checks on the assembled module, and its compile time for deeply nested profiles", "IRIs are assumed to contain no backslash (the compact-form check admits it)"}
 	r.Trusted = []string{"OPA's parser (same version as the repository links) as the oracle for template syntax"}
 	r.Rule("C07.H1", "no generated identifier collides with a keyword, a preamble rule, a built-in or a fixed template-local name", 3)
@@ -278,16 +278,20 @@ func checkC07(c *Ctx) {
 		for _, b := range fn.Blocks {
 			for _, ins := range b.Instrs {
 				call, ok := ins.(*ssa.Call)
-				if !ok || funcFullName(ssaCalleeObj(call)) != "fmt.Sprintf" {
+				if !ok {
 					continue
 				}
-				format, ok := constStringOf(call.Call.Args[0])
+				fv, packed, _, ok := ssaSprintf(call)
+				if !ok {
+					continue
+				}
+				format, ok := constStringOf(fv)
 				if !ok {
 					continue
 				}
 				var ops []ssa.Value
-				if len(call.Call.Args) > 1 {
-					ops = variadicOperands(call.Call.Args[1])
+				if packed != nil {
+					ops = variadicOperands(packed)
 				}
 				tpls = append(tpls, tpl{fn, call, format, ops})
 			}
@@ -406,7 +410,10 @@ func checkC07(c *Ctx) {
 		for _, f := range gen.Syntax {
 			ast.Inspect(f, func(n ast.Node) bool {
 				x, ok := n.(*ast.CallExpr)
-				if !ok || funcFullName(calleeOf(info, x)) != "fmt.Sprintf" || len(x.Args) < 2 {
+				if !ok {
+					return true
+				}
+				if x, ok = normSprintf(info, x); !ok || len(x.Args) < 2 {
 					return true
 				}
 				format, ok := constString(info, x.Args[0])
@@ -516,8 +523,9 @@ func checkC07(c *Ctx) {
 				switch {
 				case strings.HasPrefix(name, "strconv.Quote") || strings.HasPrefix(name, "strconv.AppendQuote"):
 					bad = name
-				case name == "fmt.Sprintf" && len(call.Call.Args) > 0:
-					if f, ok := constStringOf(call.Call.Args[0]); ok && (strings.Contains(f, "%q") || strings.Contains(f, "%+q") || strings.Contains(f, "%#q")) {
+				case isSprintfLike(call):
+					fv, _, _, _ := ssaSprintf(call)
+					if f, ok := constStringOf(fv); ok && (strings.Contains(f, "%q") || strings.Contains(f, "%+q") || strings.Contains(f, "%#q")) {
 						if rel == "internal/parser/profile" && fn.Name() == "String" {
 							continue
 						}
@@ -697,7 +705,10 @@ func c07Identifiers(c *Ctx, _ []string, constLines map[string]token.Pos) {
 	for _, f := range gen.Syntax {
 		ast.Inspect(f, func(n ast.Node) bool {
 			x, ok := n.(*ast.CallExpr)
-			if !ok || funcFullName(calleeOf(gen.TypesInfo, x)) != "fmt.Sprintf" || len(x.Args) < 1 {
+			if !ok {
+				return true
+			}
+			if x, ok = normSprintf(gen.TypesInfo, x); !ok {
 				return true
 			}
 			format, ok := constString(gen.TypesInfo, x.Args[0])
@@ -925,8 +936,8 @@ func (bi *brInterp) textOf(e ast.Expr) (string, bool) {
 	}
 	switch x := e.(type) {
 	case *ast.CallExpr:
-		if funcFullName(calleeOf(info, x)) == "fmt.Sprintf" && len(x.Args) >= 1 {
-			if f, ok := constString(info, x.Args[0]); ok {
+		if nx, ok := normSprintf(info, x); ok {
+			if f, ok := constString(info, nx.Args[0]); ok {
 				holes, _ := scanFormat(f, ctxCode)
 				return instantiate(f, holes, nil), true
 			}
